@@ -267,6 +267,10 @@ def r19_binary_leading(ctx):
         'two polytouch messages whose data bytes spell F0 / F7 in ASCII, no sysex': ([0xa0, 0x46, 0x30, 0xa0, 0x46, 0x37], []),
         'active_sensing only': ([0xfe], []),
     }
+    # a real-time byte in the middle of a sysex message (MIDI allows it anywhere) is dropped like any other message: the
+    # sysex around it comes back whole
+    for rt in (0xf8, 0xfa, 0xfb, 0xfc, 0xfe, 0xff):
+        cases[f'real-time byte {rt:#04x} inside a sysex'] = ([0xf0, x, rt, y, 0xf7, 0xf0, 0xf7], [(x, y), ()])
     n = 0
     for name, (content, want) in cases.items():
         ai = make_interp(ctx)
